@@ -75,6 +75,7 @@ type Cluster struct {
 	TagOf   map[string]string // abstract slot name -> hash tag
 	SlotOf  map[string]string // hash tag -> abstract slot name
 	SlotNum map[string]int    // abstract slot name -> slot number
+	Order   []string          // node names in the order of their lines in the CLUSTER NODES text (nil: creation order)
 	// TopoText, when set, overrides the CLUSTER NODES text served in auto mode.
 	TopoText func() string
 	tagMu    sync.Mutex
@@ -252,7 +253,18 @@ func (cl *Cluster) Seeds() []string {
 // DefaultTopo renders the CLUSTER NODES text for the nodes as configured.
 func (cl *Cluster) DefaultTopo() string {
 	var sb strings.Builder
-	for _, n := range cl.Nodes {
+	nodes := cl.Nodes
+	if cl.Order != nil {
+		// lines in the order of the published description (a real node prints its table in hash order:
+		// replicas may come before their masters)
+		nodes = nil
+		for _, name := range cl.Order {
+			if n := cl.byName[name]; n != nil {
+				nodes = append(nodes, n)
+			}
+		}
+	}
+	for _, n := range nodes {
 		if n.Flags == "absent" {
 			continue
 		}
@@ -850,11 +862,13 @@ func (cl *Cluster) Publish(desc []NodeDesc, reply string) {
 	for _, n := range cl.Nodes {
 		n.Flags = "absent"
 	}
+	cl.Order = cl.Order[:0]
 	for _, d := range desc {
 		n := cl.byName[d.Name]
 		if n == nil {
 			continue
 		}
+		cl.Order = append(cl.Order, d.Name)
 		role := d.Role
 		n.Role = role
 		if role == "none" {
